@@ -505,7 +505,7 @@ func C11(r *vf.Run) {
 						}
 					}
 				}
-				if n%9000 == 2000 {
+				if n%9000 == 2000 && si%2 == 1 {
 					// a copy of the bus taken by value (a Bus is a value; a debugger or a save-state keeps one)
 					// is re-wired over the console's own windows: the System's bus is not the copy
 					cp := h.s.Bus
@@ -516,7 +516,9 @@ func C11(r *vf.Run) {
 					cells["long:bus-copy-rewired"]++
 					k = 512
 				}
-				if n%9000 == 4500 {
+				if n%9000 == 4500 && si%2 == 1 {
+					// (every other System; the rest are never re-created, so that their buses really see all of
+					// the Attach calls of a long life)
 					// the host overlays a few segments of the console's own windows with its device (a patch
 					// area, a watch region) and later re-creates the emulator: CreateEmulator builds the
 					// LoROM map, whatever was attached in between
